@@ -1,10 +1,14 @@
 SPECIFICATION Spec
 CONSTANTS
-  Constructs = {"map", "pp", "pfe", "worker", "pbuf", "split", "buffer", "merge", "gen", "multiread", "chain", "mslices", "msiters", "bufchan", "dtmap", "adtmap"}
+  Constructs = {"map", "pp", "pfe", "worker", "pbuf", "pbufg", "split", "buffer", "merge", "gen", "multiread", "chain", "mslices", "msiters", "bufchan", "dtmap", "adtmap"}
   MaxN = 2
   MaxK = 2
   AllowStop = TRUE
   RaceReps = 0
+  FillReps = 0
+  MaxBurst = 1
+  BurstReps = 10
+  Opts = {}
   Depth = 6
 INVARIANT Inv
 CONSTRAINT EmitAll
